@@ -95,3 +95,20 @@ Theorem C02_receiver_wrap_refuted :
     d < N /\ t < d /\ nthT (roll N d h) t <> 0%Z /\ nthT (shift_trunc N d h) t = 0%Z.
 Proof. exists 4, 2, [0; 0; 0; 5]%Z, 1. vm_compute. repeat split; try lia; congruence. Qed.
 Print Assumptions C02_receiver_wrap_refuted.
+
+(** (2') geometry: the Euclidean norm of the model satisfies the triangle inequality (from the
+    sqrt laws, via Cauchy-Schwarz/Lagrange), so on the executable model an order-0 contribution
+    source -> patch j -> receiver NEVER lands before the direct-sound bin *)
+From SV Require Import Proofs.OrderField Proofs.TriangleProofs.
+Theorem C02_triangle {T} {O : Ops T} {RL : RingLaws T} {OL : OrderLaws T} {SL : SqrtLaws T}
+    (s c r : @vec T) : (vdist r s <= vdist s c + vdist c r)%T.
+Proof. exact (vdist_triangle s c r). Qed.
+Print Assumptions C02_triangle.
+
+Theorem C02_model_not_before_direct {T} {O : Ops T} {RL : RingLaws T} {OL : OrderLaws T}
+    {FL : FieldLaws T} {SL : SqrtLaws T} {FlL : FloorLaws T}
+    (sc : @scene T) tm (s : @source T) (r : @receiver T) j :
+  (0 < t_c tm)%T -> (0 < t_dt tm)%T -> nthb (src_vis s) j = true ->
+  direct_bin tm s r <= scene_delta0 sc tm s j + r_delay sc tm r j.
+Proof. intros Hc Hd. exact (order0_not_before_direct sc tm Hc Hd s r j). Qed.
+Print Assumptions C02_model_not_before_direct.
